@@ -49,7 +49,7 @@ func recvChild(args []string) int {
 		fmt.Fprintln(os.Stderr, "listen:", err)
 		return 3
 	}
-	ql, err := quictransport.ListenWithConfig(context.Background(), udp, vk.Quiet, vk.QUICConfig(true, 4*time.Second))
+	_, qtr, err := vk.ListenApp(udp, vk.QUICConfig(true, 4*time.Second))
 	if err != nil {
 		fmt.Fprintln(os.Stderr, "quic listen:", err)
 		return 3
@@ -58,7 +58,7 @@ func recvChild(args []string) int {
 	os.Stdout.Sync()
 	ctx, cancel := context.WithTimeout(context.Background(), 60*time.Second)
 	defer cancel()
-	conn, err := transferquic.NewListener(ql, vk.Quiet).Accept(ctx)
+	conn, err := qtr.Accept(ctx)
 	if err != nil {
 		fmt.Fprintln(os.Stderr, "accept:", err)
 		return 3
